@@ -176,39 +176,65 @@ def campaign(pid: str, mod_name: str, tier: str, master_seed: int, n_runs: int, 
     known_now = load_known()
     pool_broken = None
     submitted = 0
-    try:
-        with ProcessPoolExecutor(max_workers=workers, mp_context=ctx, initializer=_child_init, initargs=(ctx.Value("i", 0), None), max_tasks_per_child=opts.get("tasks_per_child", 40)) as ex:
-            seed_iter = iter(_seed_stream(master_seed))
-            pending = {}
+    deaths = []
+    tolerated = int(opts.get("tolerate_worker_deaths", 0 if pid == "C05" else 1))
+    seed_iter = iter(_seed_stream(master_seed))
+    carry: List[int] = []  # seeds that were pending when a worker died (re-submitted in the next pool)
+    target = n_runs
+    stop = False
+    while not stop:
+        pending = {}
+        started = {}
+        try:
+            with ProcessPoolExecutor(max_workers=workers, mp_context=ctx, initializer=_child_init, initargs=(ctx.Value("i", 0), None), max_tasks_per_child=opts.get("tasks_per_child", 40)) as ex:
 
-            def submit_one():
-                nonlocal submitted
-                s = next(seed_iter)
-                pending[ex.submit(_child_run, mod_name, s, tier, opts)] = s
-                submitted += 1
+                def submit_one(seed=None):
+                    nonlocal submitted
+                    s = next(seed_iter) if seed is None else seed
+                    pending[ex.submit(_child_run, mod_name, s, tier, opts)] = s
+                    started[s] = time.time()
+                    if seed is None:
+                        submitted += 1
 
-            target = n_runs
-            for _ in range(min(target, workers * 2) if budget_s is None else workers * 2):
-                submit_one()
-            while pending:
-                done = next(as_completed(list(pending.keys())))
-                s = pending.pop(done)
-                try:
-                    r = done.result()
-                except BrokenProcessPool as e:
-                    pool_broken = f"worker died while running seed {s} (wall-clock guard of {opts.get('task_timeout', 420)} s or crash): {e}"
-                    break
-                except Exception as e:
-                    r = dict(seed=s, status="harness_error", detail=repr(e))
-                agg.add(r)
-                if r.get("status") not in ("ok", "skipped"):
-                    print(f"[{pid}] seed={r.get('seed')} status={r.get('status')} {str(r.get('detail') or (r.get('violations') or [''])[0])[:400]}", flush=True)
-                more = (submitted < target) if budget_s is None else (time.time() - t0 < budget_s)
-                n_new = sum(1 for v in agg.violations if match_known(pid, (v.get("violations") or [{}])[0], known_now) is None)
-                if more and n_new < opts.get("max_violations", 3):
+                for s in carry:
+                    submit_one(s)
+                carry = []
+                for _ in range(max(0, (min(target, workers * 2) if budget_s is None else workers * 2) - len(pending))):
+                    if budget_s is None and submitted >= target:
+                        break
                     submit_one()
-    except BrokenProcessPool as e:
-        pool_broken = str(e)
+                while pending:
+                    done = next(as_completed(list(pending.keys())))
+                    s = pending.pop(done)
+                    try:
+                        r = done.result()
+                    except BrokenProcessPool:
+                        pending[done] = s
+                        raise
+                    except Exception as e:
+                        r = dict(seed=s, status="harness_error", detail=repr(e))
+                    agg.add(r)
+                    if r.get("status") not in ("ok", "skipped"):
+                        print(f"[{pid}] seed={r.get('seed')} status={r.get('status')} {str(r.get('detail') or (r.get('violations') or [''])[0])[:400]}", flush=True)
+                    more = (submitted < target) if budget_s is None else (time.time() - t0 < budget_s)
+                    n_new = sum(1 for v in agg.violations if match_known(pid, (v.get("violations") or [{}])[0], known_now) is None)
+                    if more and n_new < opts.get("max_violations", 3):
+                        submit_one()
+                stop = True
+        except BrokenProcessPool as e:
+            # a worker was killed by the wall-clock guard (or crashed). The run that had been going longest is taken to be the culprit and is
+            # not repeated; everything else that was pending is re-submitted to a new pool.
+            lost = sorted(pending.values(), key=lambda s_: started.get(s_, 0.0))
+            culprit = lost[0] if lost else None
+            deaths.append(culprit)
+            print(f"[{pid}] worker died (wall-clock guard of {opts.get('task_timeout', 420)} s or crash); longest-running seed {culprit}; {len(lost) - 1} pending runs re-submitted", flush=True)
+            if len(deaths) > tolerated:
+                pool_broken = f"{len(deaths)} worker deaths (seeds {deaths}): {e}"
+                stop = True
+            else:
+                carry = lost[1:]
+    if deaths and pool_broken is None:
+        print(f"[{pid}] NOTE: {len(deaths)} run(s) were killed by the wall-clock guard and are not part of the verdict (seeds {deaths})", flush=True)
     wall = time.time() - t0
     # ---- verdicts
     known = load_known()
@@ -271,6 +297,7 @@ def campaign(pid: str, mod_name: str, tier: str, master_seed: int, n_runs: int, 
         distinct_task_orders=len(agg.task_orders),
         real_vs_stub=REAL_VS_STUB,
         workers=workers,
+        runs_killed_by_wall_clock_guard=len(deaths),
     )
     for k, v in agg.sums.items():
         cov[k] = round(v, 6) if isinstance(v, float) else v
